@@ -37,8 +37,11 @@ class Facts:
                 os.replace(tmp, cache)
             except OSError:
                 pass
+        self.extern_panics = {}
         for d in raw:
             crate = d["crate"]
+            if d.get("extern_panics"):
+                self.extern_panics[crate if d["kind"] == "Rlib" else crate + "[bin]"] = d["extern_panics"]
             tag = crate if d["kind"] == "Rlib" else crate + "[bin]"
             self.crates[tag] = {"features": d.get("features", []), "bodies": len(d["mir"])}
             for b in d["mir"]:
